@@ -274,7 +274,10 @@ def execute(script):
             c = w.conn(peer)
             if c is None:
                 return False
-            c.send(M.DataMessage(M.DATA_BLOCK, W.roundtrip(blk)), in_response_to=(0 if route == 'relay' else 7))
+            if route == 'relay':
+                c.send(M.DataMessage(M.DATA_BLOCK, W.roundtrip(blk)))
+            else:
+                c.offer_block(W.roundtrip(blk))     # bulk-download route: announce, be asked, serve
             if route != 'relay':
                 res.bump('probe:head_change_through_bulk_download_path')
             w.settle(3000)
